@@ -39,7 +39,7 @@ def cases(draw, tier):
         if use_w:
             e[2] = {"weight": w}
     k = draw(st.integers(1, 3))
-    return {"spec": spec, "orders": draw(st.lists(st.integers(1, 3), min_size=k, max_size=k, unique=True)),
+    return {"shadow": draw(st.integers(0, 3)) == 0, "spec": spec, "orders": draw(st.lists(st.integers(1, 3), min_size=k, max_size=k, unique=True)),
             "weights": draw(st.lists(st.sampled_from([0, 0.5, 1, 2]), min_size=k, max_size=k))}
 
 
@@ -53,13 +53,49 @@ def dense(A):
 
 def run_case(case, ctx):
     H = nets.build(case["spec"])
+    if case.get("shadow"):
+        wts = {e: H.edges[e].get("weight") for e in H.edges}
+        nets.shadow_stat_names(H)  # attributes called "order" / "size" / "degree" must not change any matrix
+        ctx.event("attributes-named-like-statistics")
     _evaluate(H, case, ctx)
+    _positional(H, case, ctx)
     # the same object after an edit that changes neither the number of nodes nor the number of edges: nothing computed
     # for the earlier state may survive (every matrix is re-derived and compared again)
     edited = nets.small_edit(H) is not None
     if edited:
         ctx.event("re-evaluated-after-edit")
         _evaluate(H, case, ctx)
+
+
+def _positional(H, case, ctx):
+    """the documented parameter order: the same call with its options passed positionally gives the same matrix"""
+    if not H.num_nodes:
+        return
+
+    def same(a, b):
+        a, b = dense(a), dense(b)
+        return a.shape == b.shape and np.allclose(a, b, atol=1e-12, equal_nan=True)
+
+    C = ctx.check
+    for order in (1, 2):
+        for sparse in (False, True):
+            for rescale in (False, True):
+                kw = xgi.laplacian(H, order=order, sparse=sparse, rescale_per_node=rescale)
+                ps = xgi.laplacian(H, order, sparse, rescale)
+                C(issparse(kw) == issparse(ps) and same(kw, ps), ("positional", "laplacian"), lambda: "order=%d sparse=%s rescale=%s" % (order, sparse, rescale))
+    for sparse in (False, True):
+        for s_ in (1, 2):
+            for w in (False, True):
+                kw = xgi.adjacency_matrix(H, order=None, sparse=sparse, s=s_, weighted=w)
+                ps = xgi.adjacency_matrix(H, None, sparse, s_, w)
+                C(issparse(kw) == issparse(ps) and same(kw, ps), ("positional", "adjacency_matrix"), lambda: "sparse=%s s=%d weighted=%s" % (sparse, s_, w))
+        kw = xgi.incidence_matrix(H, order=1, sparse=sparse)
+        ps = xgi.incidence_matrix(H, 1, sparse)
+        C(issparse(kw) == issparse(ps) and same(kw, ps), ("positional", "incidence_matrix"), "sparse=%s" % sparse)
+        for rescale in (False, True):
+            kw = xgi.multiorder_laplacian(H, orders=[1, 2], weights=[1, 0.5], sparse=sparse, rescale_per_node=rescale)
+            ps = xgi.multiorder_laplacian(H, [1, 2], [1, 0.5], sparse, rescale)
+            C(issparse(kw) == issparse(ps) and same(kw, ps), ("positional", "multiorder_laplacian"), "sparse=%s rescale=%s" % (sparse, rescale))
 
 
 def _evaluate(H, case, ctx):
